@@ -211,6 +211,8 @@ func classify(err error) string {
 		return "err:provider"
 	case strings.Contains(m, "Can't use both Authenticator and AuthProvider"):
 		return "err:both"
+	case strings.Contains(m, "x509:") || strings.Contains(m, "tls:"):
+		return "err:tls-verify"
 	case strings.Contains(m, "Unknown type of response to startup frame"):
 		return "err:protocol"
 	case strings.Contains(m, "authentication required"):
@@ -779,6 +781,38 @@ func genCoherent(r *vh.Rng, cls string) (string, []string) {
 	return "cu:" + strings.Join(rs, ",") + ":" + sf, append(script, genSucc(r))
 }
 
+// end-to-end TLS scenario arguments: <cfg> <ehv> <ca> <auth> <class> <certA> <certB> <dial>…
+func genTLSArgs(r *vh.Rng) string {
+	cfg := "nil"
+	if r.Intn(4) != 0 {
+		cfg = fmt.Sprintf("I%dS%dR%d", r.Intn(2), [...]int{0, 0, 1}[r.Intn(3)], r.Intn(2))
+	}
+	ca := []string{"absent", "valid", "valid"}[r.Intn(3)]
+	cls := defaults[r.Intn(len(defaults))]
+	if r.Intn(6) == 0 {
+		cls = genClass(r)
+	}
+	auth := genPw(r, cls)
+	if r.Intn(8) == 0 {
+		auth = "none"
+	}
+	kinds := []string{"good", "good", "good", "peer", "other", "untrusted"}
+	dialKinds := []string{"a:n", "b:n", "a:n", "b:n", "a:i", "b:i"}
+	n := 1 + r.Intn(3)
+	dials := make([]string, n)
+	for i := range dials {
+		dials[i] = dialKinds[r.Intn(len(dialKinds))]
+	}
+	if n >= 2 && r.Bool() { // both nodes by name through the one session configuration
+		dials[0], dials[1] = "a:n", "b:n"
+		if r.Bool() {
+			dials[0], dials[1] = "b:n", "a:n"
+		}
+	}
+	return fmt.Sprintf("%s %d %s %s %s %s %s %s", cfg, r.Intn(2), ca, auth, vh.Hex([]byte(cls)),
+		kinds[r.Intn(len(kinds))], kinds[r.Intn(len(kinds))], strings.Join(dials, " "))
+}
+
 // ---------- cases
 
 type pending struct {
@@ -809,6 +843,9 @@ func main() {
 		}
 		for k, rw := range runScenarios(ops) {
 			cases[idx[k]].ans = format(ops[k], rw)
+		}
+		if scratch != "" {
+			os.RemoveAll(scratch)
 		}
 	}
 	if mode == "replay" {
@@ -945,6 +982,21 @@ func main() {
 		}
 		kind, _ := credentialsFor(parseScenario("mon " + cfg))
 		add(strings.TrimSpace("mon "+cfg+" "+strings.Join(sc, " ")), func(a string) string { return "oracle/mon/" + kind + "/" + first(a) })
+	}
+	// "only after TLS verification as configured": real TLS endpoints, the session's own dialer, several hosts
+	for i := 0; i < 100*mult; i++ {
+		args := genTLSArgs(r)
+		add("tlscred "+args, func(a string) string {
+			switch {
+			case strings.Contains(a, "cred=1") && strings.Contains(a, "proceeded=0"):
+				return "oracle/tlscred/mixed"
+			case strings.Contains(a, "cred=1"):
+				return "oracle/tlscred/disclosed"
+			case strings.Contains(a, "proceeded=1"):
+				return "oracle/tlscred/proceeded"
+			}
+			return "oracle/tlscred/refused"
+		})
 	}
 	// setupTLSConfig: the whole finite domain of (config, EnableHostVerification) x file states
 	cfgs := []string{"nil"}
@@ -1097,6 +1149,14 @@ func main() {
 			continue
 		}
 		add(strings.TrimSpace("hsx "+genConn(r, cls)+" "+strings.Join(genScript(r, cls), " ")), outcomeClass("hsx/"))
+	}
+	for i := 0; i < 100*mult; i++ {
+		add("tlsx "+genTLSArgs(r), func(a string) string {
+			if strings.Contains(a, "tls=fail") {
+				return "tlsx/some-rejected"
+			}
+			return "tlsx/all-accepted"
+		})
 	}
 	// the public entry point: NewSession with a scripted HostDialer
 	for i := 0; i < 120*mult; i++ {
